@@ -8,6 +8,7 @@ explicit hypothesis `NoColl`.
 -/
 import ArvVerif.Proofs.C03Cache
 import ArvVerif.Proofs.C03Conc
+import ArvVerif.Proofs.C03_Load
 namespace ArvVerif.C03
 variable {D : Type} [DecidableEq D]
 
@@ -358,6 +359,46 @@ theorem C03_file_read_sound (blocks : Nat → Bytes) (segs : List Seg)
         have : s.length < p1.segOff := by omega
         simp [this]
 
+/-- **A handle's Read/Seek sequence reads the flat file.** For any collection loaded by the model's
+loadManifest (any number of streams, files, tokens), over a verified block store whose blocks have
+the sizes the locators name: every file's segments are non-empty and inside their blocks, and for
+every file, every starting pointer satisfying the pointer invariant (in particular a fresh handle)
+and **every** sequence of `Read(n)` / `Seek(off)` calls, the calls all return, and their results
+are those of a plain file holding `fileContent` — each Read delivers the bytes at the handle's
+offset (at least one unless nothing was asked or the offset is at the end, never more than asked),
+advances the offset by what it delivered, and reports EOF only when the request reaches beyond
+the end of the file and always at or beyond the end. -/
+theorem C03_file_sequence {ι : Type} [BEq ι] (blocks : Nat → Bytes) (size : Nat → Nat)
+    (hlen : ∀ i, size i ≤ (blocks i).length)
+    (streams : List (List (Nat × Nat) × List (Nat × Nat × ι)))
+    (hstreams : ∀ st ∈ streams, BlocksOK size st.1)
+    (files : List (ι × List Seg)) (hload : loadManifestN streams [] = some files)
+    (f : ι × List Seg) (hf : f ∈ files) :
+    SegsPos f.2 ∧ SegsIn blocks f.2 ∧
+    ∀ (p : Ptr), PtrOK f.2 p → ∀ ops : List FOp,
+      ∃ rs, runFile (vRead blocks) f.2 p ops = some rs ∧ Follows (fileContent blocks f.2) p.off ops rs := by
+  have hwf := loadManifestN_wf size streams hstreams [] (by simp) files hload f hf
+  obtain ⟨hpos, hin⟩ := segsWF_pos_in size blocks hlen f.2 hwf
+  exact ⟨hpos, hin, fun p hok ops => runFile_follows blocks f.2 hin hpos ops p hok⟩
+
+/-- One File.Read, exactly: before the end of the file it returns `min(len p, bytes left in the
+segment holding the offset)` bytes — the flat content at the offset — and at or beyond the end
+nothing with EOF. A fresh handle and every pointer produced by Read or Seek satisfy the invariant. -/
+theorem C03_file_read_exact (blocks : Nat → Bytes) (segs : List Seg) (hin : SegsIn blocks segs)
+    (hpos : SegsPos segs) (p : Ptr) (hok : PtrOK segs p) (plen : Nat) :
+    PtrOK segs {} ∧ (∀ off, PtrOK segs (fileSeek p off)) ∧
+    (fileSize segs ≤ p.off →
+      ∃ p', fileRead (vRead blocks) segs p plen = some ([], some .eof, p') ∧ p'.off = p.off ∧ PtrOK segs p') ∧
+    (p.off < fileSize segs →
+      ∃ d e p', fileRead (vRead blocks) segs p plen = some (d, e, p') ∧
+        d = ((fileContent blocks segs).drop p.off).take d.length ∧
+        (∃ s o, o < s.length ∧ s ∈ segs ∧ d.length = min plen (s.length - o)) ∧
+        p'.off = p.off + d.length ∧ PtrOK segs p' ∧
+        (e = none ∨ (e = some .eof ∧ p'.off = fileSize segs ∧ fileSize segs < p.off + plen))) :=
+  ⟨ptrOK_init segs, fun off => ptrOK_fileSeek segs p off hok,
+   fun hge => fileRead_at_end blocks segs p plen hge,
+   fun hlt => fileRead_before_end blocks segs hin hpos p hok plen hlt⟩
+
 /-- **No answer makes the cached read crash** (finding F3a, fixed). For every locator (any size
 hint, also one that does not fit 32 bits, or none), retry count, probe order and server script
 (any Content-Length, any body), the fetch of BlockCache.Get ends in data or in an error class
@@ -440,6 +481,17 @@ example : (fetch (fun x : Bytes => x) (fun _ => [1, 2, 3]) "0123456789abcdef0123
 /-- …while the same answer with its Content-Length declared is rejected at once. -/
 example : (fetch (fun x : Bytes => x) (fun _ => [1, 2, 3]) "0123456789abcdef0123456789abcdef+2".toList 1 [0]
     { scripts := [[.ok (some 3) exBody]] }).1.err = some .proto := by decide
+
+/-- `C03_file_sequence` on a concrete two-stream collection: file 7 is made of bytes 2..5 of the
+stream [0,1,2] ++ [3,4,5] and byte 0 of the second stream; read 3, seek 1, read 10, read 1, read 1. -/
+def exBlocks : Nat → Bytes := fun i => if i = 0 then [0, 1, 2] else [3, 4, 5]
+
+example :
+    ((loadManifestN [([(0, 3), (1, 3)], [(2, 3, (7 : Nat))]), ([(1, 3)], [(0, 1, 7)])] []).map
+        (fun files => files.map (fun f => (f.1, runFile (vRead exBlocks) f.2 {} [.read 3, .seek 1, .read 10, .read 1, .read 1])))
+      : Option (List (Nat × Option (List (Bytes × Option Err))))) =
+      some [(7, some [([2], none), ([3, 4], none), ([3], none), ([], some .eof)])] := by
+  rfl
 
 /-- F3a witnesses in the model: a hint of 2^31 answered without Content-Length, and a hint-less locator
 answered with Content-Length 70 000 000, are errors (they used to be `panic`). -/
